@@ -268,6 +268,32 @@ def oracle_network(case, rec):
         kw = {"typical_weight": 2.0} if clause.endswith("_tw") else None
         both(rec, clause + ("_dir" if directed else ""), m, getattr(net, m),
              getattr(net2, m), perm, n, tol_for(m), aa, bb, kw)
+    # the same relabelling done by igraph (Graph.permute_vertices lists the
+    # links in its own order) and adopted through Network.FromIGraph
+    def via_igraph():
+        # igraph changed the direction of `permutation` between releases:
+        # take the one that yields the relabelled graph
+        for q in (p, inv):
+            g3 = net.graph.copy().permute_vertices([int(i) for i in q])
+            if np.array_equal(np.array(g3.get_adjacency().data),
+                              (A[p][:, p] != 0).astype(int)):
+                break
+        net3 = Network.FromIGraph(g3, silence_level=3)
+        net3.node_weights = w[p]
+        return net3
+    ok3, net3 = rec.call("relabel_via_igraph_raises", via_igraph)
+    if ok3:
+        sfx = "_via_igraph" + ("_dir" if directed else "")
+        rec.equal(np.asarray(net3.adjacency), A[p][:, p], "adjacency" + sfx)
+        for m in ("degree", "nsi_degree", "betweenness", "closeness"):
+            both(rec, m + sfx, m, getattr(net, m), getattr(net3, m), perm, n,
+                 tol_for(m))
+        if W is not None:
+            for m in ("link_attribute", "degree", "nsi_degree",
+                      "path_lengths", "closeness", "average_path_length",
+                      "average_link_attribute"):
+                both(rec, m + "_key" + sfx, m, getattr(net, m),
+                     getattr(net3, m), perm, n, tol_for(m), ("la",), ("la",))
 
 
 # ---------------------------------------------------- InteractingNetworks
